@@ -64,7 +64,20 @@ fn open_and_verify(path: &Path, model: &ContainerModel, form: &str) -> Result<u6
         Ok(c) => c,
         Err(e) => fail!(format!("form-unreadable:{}", form.split('#').next().unwrap()), "form {form}: Container::new: {e}"),
     };
-    verify_container(&c, model, &format!("{}:", form.split('#').next().unwrap()))
+    let n = verify_container(&c, model, &format!("{}:", form.split('#').next().unwrap()))?;
+    // the contents once more on a freshly opened container, asked in the opposite order (the packs
+    // declared last, i.e. the ones in their own files, before the main pack) and before anything else
+    let c2 = match jbk::reader::Container::new(path) {
+        Ok(c) => c,
+        Err(e) => fail!(format!("form-unreadable:{}", form.split('#').next().unwrap()), "form {form}: Container::new (second opening): {e}"),
+    };
+    for (i, (a, b)) in model.contents.iter().enumerate().rev() {
+        match read_content(&c2, *a) {
+            ContentRead::Bytes(v) => ensure!(&v == b, format!("{}:content-bytes", form.split('#').next().unwrap()), "form {form}, contents asked last pack first: content #{i} {a:?} differs"),
+            other => fail!(format!("{}:content-unreadable", form.split('#').next().unwrap()), "form {form}, contents asked last pack first: content #{i} {a:?}: {}", other.describe()),
+        }
+    }
+    Ok(n + model.contents.len() as u64)
 }
 
 fn prefix_bytes(kind: &PrefixKind, len: usize, seed: u32) -> Vec<u8> {
@@ -93,12 +106,12 @@ impl Property for C10 {
     const ID: &'static str = "C10";
 
     fn rule() -> String {
-        "proptest-generated container specs (contents, 0..2 extra content packs in their own files, directory with 1-2 entry stores whose address columns point at the real contents) are created with BasicCreator in the three packagings; derived forms: tools::concat of the NoConcat files in every order (all permutations up to 4 files, 24 sampled of 120 for 5), concat of two concats, a OneFile container behind a prefix of 1..8192 bytes {random, text, ELF header, bytes starting with 'jbk'+kind char}, and a concat placed next to a corrupted copy of a pack at its recorded location (identity inside the file first). Oracle (metamorphic + model): every form opens, every entry of every index window and every content equal the model, check() is true. Non-trivial = at least one content and one entry and a form other than the creator's own output (all cases have such forms); distinct by (content count, entry count, extra packs, prefix class, compression). Excluded: a prefix that is itself a complete valid Jubako pack (the reader rightly finds that pack at offset 0; the property is about embedding at the end of a foreign file). Form prefix-external: the packs living in their own files (TwoFiles content, NoConcat content and directory, extra packs) are themselves embedded at the end of another file. Extra packs are placed next to the entry point, in a sub-directory, or in a sibling directory (recorded location starting with '..').".into()
+        "proptest-generated container specs (contents, 0..2 extra content packs in their own files, directory with 1-2 entry stores whose address columns point at the real contents) are created with BasicCreator in the three packagings; derived forms: tools::concat of the NoConcat files in every order (all permutations up to 4 files, 24 sampled of 120 for 5), concat of two concats, a OneFile container behind a prefix of 1..8192 bytes {random, text, ELF header, bytes starting with 'jbk'+kind char}, and a concat placed next to a corrupted copy of a pack at its recorded location (identity inside the file first). Oracle (metamorphic + model): every form opens, every entry of every index window and every content equal the model, check() is true. Non-trivial = at least one content and one entry and a form other than the creator's own output (all cases have such forms); distinct by (content count, entry count, extra packs, prefix class, compression). Excluded: a prefix that is itself a complete valid Jubako pack (the reader rightly finds that pack at offset 0; the property is about embedding at the end of a foreign file). Form prefix-external: the packs living in their own files (TwoFiles content, NoConcat content and directory, extra packs) are themselves embedded at the end of another file. Extra packs are placed next to the entry point, in a sub-directory, or in a sibling directory (recorded location starting with '..'). Form odd-file-name: one packaging per case is created again under a file name containing ':', ' ', '%', '#', '?', non-ASCII letters, a backslash, several dots, no extension, a leading dot or dash. Every form is opened a second time and its contents asked last pack first.".into()
     }
 
     fn cases(tier: Tier) -> u32 {
         match tier {
-            Tier::Quick => 480,
+            Tier::Quick => 960,
             Tier::Thorough => 50000,
         }
     }
@@ -304,6 +317,33 @@ impl Property for C10 {
             }
             evals += open_and_verify(&edir.join("a.jbk"), model, &format!("prefix-external-{name}"))?;
             info.class("form:prefix-external");
+        }
+        // 7. the same container under a file name that is not plain ASCII letters: the recorded
+        // locations of the packs living in their own files are derived from it (colon, space, '%',
+        // '#', '?', non-ASCII letters, several dots, no extension, leading dot or dash)
+        {
+            const NAMES: [&str; 14] = [
+                "snapshot-2024-05-01T10:30.jbk",
+                "with space & amp.jbk",
+                "d\u{ed}a-\u{f1}and\u{fa}-\u{65e5}\u{672c}.jbk",
+                "100%25done%2Fx.jbk",
+                "q?x=1#frag.jbk",
+                "file:rel.jbk",
+                "noext",
+                "two.dots.name.jbk",
+                ".hidden.jbk",
+                "-leading-dash.jbk",
+                "trailing.dot..jbk",
+                "back\\slash.jbk",
+                "http://host/x.jbk",
+                "tab\tand'quote\".jbk",
+            ];
+            let name = NAMES[(case.seed as usize / 7) % NAMES.len()].replace('/', "\u{2215}");
+            let (p, pname) = [(Packaging::TwoFiles, "twofiles"), (Packaging::NoConcat, "noconcat"), (Packaging::OneFile, "onefile")][(case.seed as usize / 3) % 3];
+            let d = ctx.subdir("c10-odd-name");
+            let b = build(&mk(p), &d, &name, None)?;
+            evals += open_and_verify(&b.main_path, &b.model, &format!("odd-name-{pname}"))?;
+            info.class("form:odd-file-name");
         }
         for e in &case.extra {
             info.class(format!("extra-place:{}", e.place % 3));
